@@ -40,6 +40,10 @@ pub enum StopCase {
     /// plies (where the table remembers more depth than the record leaves room for): `go infinite` + `stop`, `go
     /// movetime 1` and an exhausted clock must each be answered with a legal move
     DeepThenStop { fen: String, plies: u16 },
+    /// EVERY stop instant 0..=upto of a deeper search (depth 6-8) of a small blocked position, where from the fourth
+    /// iteration on most nodes are answered by the table: the instants at which the flag flips on a node that has a
+    /// usable table entry are frequent there and rare in the shallow sweeps
+    Dense { fen: String, depth: u8, upto: u32 },
 }
 
 pub struct C07;
@@ -291,6 +295,26 @@ impl Prop for C07 {
                 report(case, f);
             }
         }
+        // dense sweeps: every instant of a deeper search of small blocked positions
+        let mut k4 = 3000u64;
+        for (fen, depth) in [
+            ("8/8/8/p1p1p1p1/P1P1P1P1/8/4k3/K7 w - - 0 1", 7u8),
+            ("kb6/p1p5/P1P5/8/8/8/8/K7 w - - 0 1", 8),
+            ("8/8/4k3/8/8/3K4/4P3/8 w - - 0 1", 7),
+            ("8/8/8/8/8/1k6/p7/K7 b - - 0 1", 8),
+            ("8/pp3pk1/2p3p1/8/3P4/2P3P1/P4PK1/8 w - - 0 30", 6),
+            ("4k3/8/8/8/8/8/4P3/4K3 w - - 0 1", 7),
+        ] {
+            k4 += 1;
+            if !ctx.owns(k4) {
+                continue;
+            }
+            let case = StopCase::Dense { fen: fen.to_string(), depth, upto: 1500 };
+            ctx.note_inflight("C07", &case);
+            if let Err(f) = self.check(ctx, &case, ev) {
+                report(case, f);
+            }
+        }
         // deep cache, then a long record, then stopped / starved searches
         let mut k3 = 2000u64;
         for fen in ["8/8/4k3/8/8/3K4/8/8 w - - 0 1", "8/8/8/4k3/8/8/4K3/8 w - - 0 1", "6k1/8/5K2/7P/8/8/8/8 w - - 0 1"] {
@@ -356,7 +380,7 @@ impl Prop for C07 {
     }
 
     fn rule(&self) -> String {
-        "Cases: end positions of generated walks, fresh or warm table (warm = after a depth-2 search of the same position). In-process the node-entry hook flips the stop flag after exactly N polls, N enumerated exhaustively 0..=64 and then geometrically (x1.4) up to the poll count of the full depth-limited search (depth 3-4), one search per N: the result must be a move legal in the reference model whenever the model has one (None only for checkmate/stalemate roots), and the hook must count 0 node entries after the flip; for a sample of stop instants every cached child of the root is then searched (depth 1-2) with the table the stopped search left behind and must get a legal answer too. Twelve game records that end in a forced repetition (three perpetual-check roots and their colour mirrors, the cycle a b a' b' a played once or after one earlier turn, so that the side to move has a single legal move and it is the one the root repetition filter removes) get the same sweep at depths 2-4 and, through the real binary, `go infinite` + `stop`, `go movetime 0/1` and an exhausted clock. Nine cases in ten are (cheap) walks whose picks prefer checks and captures: at every position along them with one to three legal moves (forced recaptures, single flights, only a capture or a promotion left) the stop before the start and the stop at polls 0, 1, 2, 3 and 6 of a depth-2 search must each yield one of those moves. Nine sessions search a tiny position to the depth ceiling and then, at the end of a 372-396-ply record of the same position, require a legal answer to `go infinite` + `stop`, `go movetime 0/1` and an exhausted clock. Twelve self-play runs (`rustybait auto 0|1|2` from four start positions: every search is ended by the timer almost at once) must go on until the last printed position has no legal move or the length guard ends the game. Five fixed boards (start, Kiwipete, 5+5 queens, 8+8 queens, 9+9 queens) get `go depth d`, `stop` after 150 ms through the real binary and must answer within 10 s. Every sweep also contains the stop that is there before the search starts (flag already down), once with the table as it is and once with the root cached at full depth. About 1 case in 12 drives the real binary (half of them after a depth-3 search of the same root in the same session): `go infinite` immediately followed by `stop`, `go movetime 0..10`, or VERIF_STOP_AFTER_POLLS=N with `go depth 4`; `bestmove none` with legal moves available is the violation. evaluations = stopped searches. Non-trivial: N smaller than the polls a depth-1 iteration needs (the window in which no iteration has completed), and every binary session; distinct by (position, N).".into()
+        "Cases: end positions of generated walks, fresh or warm table (warm = after a depth-2 search of the same position). In-process the node-entry hook flips the stop flag after exactly N polls, N enumerated exhaustively 0..=64 and then geometrically (x1.4) up to the poll count of the full depth-limited search (depth 3-4), one search per N: the result must be a move legal in the reference model whenever the model has one (None only for checkmate/stalemate roots), and the hook must count 0 node entries after the flip; for a sample of stop instants every cached child of the root is then searched (depth 1-2) with the table the stopped search left behind and must get a legal answer too. Twelve game records that end in a forced repetition (three perpetual-check roots and their colour mirrors, the cycle a b a' b' a played once or after one earlier turn, so that the side to move has a single legal move and it is the one the root repetition filter removes) get the same sweep at depths 2-4 and, through the real binary, `go infinite` + `stop`, `go movetime 0/1` and an exhausted clock. Nine cases in ten are (cheap) walks whose picks prefer checks and captures: at every position along them with one to three legal moves (forced recaptures, single flights, only a capture or a promotion left) the stop before the start and the stop at polls 0, 1, 2, 3 and 6 of a depth-2 search must each yield one of those moves. Six small blocked positions are searched to depth 6-8 with EVERY stop instant from 0 to 1500 (there most nodes are answered by the table from the fourth iteration on, so that a stop landing on a table hit is frequent). Nine sessions search a tiny position to the depth ceiling and then, at the end of a 372-396-ply record of the same position, require a legal answer to `go infinite` + `stop`, `go movetime 0/1` and an exhausted clock. Twelve self-play runs (`rustybait auto 0|1|2` from four start positions: every search is ended by the timer almost at once) must go on until the last printed position has no legal move or the length guard ends the game. Five fixed boards (start, Kiwipete, 5+5 queens, 8+8 queens, 9+9 queens) get `go depth d`, `stop` after 150 ms through the real binary and must answer within 10 s. Every sweep also contains the stop that is there before the search starts (flag already down), once with the table as it is and once with the root cached at full depth. About 1 case in 12 drives the real binary (half of them after a depth-3 search of the same root in the same session): `go infinite` immediately followed by `stop`, `go movetime 0..10`, or VERIF_STOP_AFTER_POLLS=N with `go depth 4`; `bestmove none` with legal moves available is the violation. evaluations = stopped searches. Non-trivial: N smaller than the polls a depth-1 iteration needs (the window in which no iteration has completed), and every binary session; distinct by (position, N).".into()
     }
 
     fn assumptions(&self) -> Vec<String> {
@@ -484,6 +508,20 @@ impl Prop for C07 {
                     }
                 }
                 ev.nontrivial(fp_bytes(format!("{}{}", fen, millis).as_bytes()), || json!({"self_play_from": fen, "millis_per_move": millis, "positions": positions, "ended_by_length_guard": too_long}));
+                Ok(())
+            }
+            StopCase::Dense { fen, depth, upto } => {
+                let p = Pos::from_fen(fen).map_err(|e| Fail::new("harness", e))?;
+                let g = Game::new(fen).map_err(|e| Fail::new("sane-position-not-importable", e.to_string()))?;
+                let base = srch::new_table();
+                let mut t = base.clone();
+                let (_, d1, _) = stopped_search(&g, &mut t, 1, -1).map_err(|e| Fail::new("panic", e))?;
+                let mut t = base.clone();
+                let (_, total, _) = stopped_search(&g, &mut t, *depth, -1).map_err(|e| Fail::new("panic", e))?;
+                ev.class("dense_sweeps_of_deeper_searches");
+                for n in 0..=(*upto as u64).min(total + 2) {
+                    self.one(&p, &g, &base, *depth, n, d1, ev)?;
+                }
                 Ok(())
             }
             StopCase::DeepThenStop { fen, plies } => {
